@@ -3,6 +3,7 @@ import Dashu.Driver.Loop
 import Dashu.Spec.Panics
 import Dashu.Model.Panic.Guards
 import Dashu.Model.Panic.GuardsMore
+import Dashu.Model.Panic.GuardsMore3
 /-
   Driver of group `panic` (C16).  The MODEL of this property is the documentation
   (`Dashu.Spec.Panics.verdict`): for each case line the driver prints what the documentation promises —
@@ -45,11 +46,15 @@ def showVerdict : Verdict → String
 
 def dispatch (W : Nat) (op0 : String) (args : List String) : Option String := do
   let op1 := if op0.startsWith "R/" then (op0.drop 2).toString else op0
+  let op1 := if op1.startsWith "L/" then (op1.drop 2).toString else op1     -- termination stream (long limit)
   let op ← Op.ofName op1
   let as ← args.mapM parseArg
   let v ← verdict W op as
-  let out := showVerdict v
-  match (Dashu.Model.Panic.guardModel W op as <|> Dashu.Model.Panic.guardModelMore W op as) with
+  let out := match op, as with
+    | .uTryPrims, [.int x] | .iTryPrims, [.int x] => showVerdict v ++ " " ++ fitsPattern x
+    | _, _ => showVerdict v
+  match (Dashu.Model.Panic.guardModel W op as <|> Dashu.Model.Panic.guardModelMore W op as <|>
+         Dashu.Model.Panic.guardModelMore3 W op as) with
   | none => some out
   | some g =>
     let gs := match g with
